@@ -606,7 +606,8 @@ def install():
         rt = Runtime.current
         if rt is not None:
             rt.log.append(('generated', 'ddmin', tokens_of_exprs(exprs),
-                           dup_ids(exprs), str(mutator), gran))
+                           dup_ids(exprs), str(mutator), gran,
+                           type(mutator).__name__))
         return orig_tg(self, exprs, gran, mutator, max_depth)
 
     strategy_ddmin.TaskGenerator.__init__ = tg_init
